@@ -41,7 +41,7 @@ eb.ctor_defaults = {"tf": None, "switching_beams": ()}
 pd = shape("_PhaseDriftParams", drift_rate="real", ti="int")
 pd.ctor_fields = ["drift_rate", "ti"]
 
-shape("WeightMap")
+shape("WeightMap", weights=("list", "real"))
 shape("DetuningMap", bases=("WeightMap",))
 
 cs = shape("_ChannelSchedule", channel_id="str", channel_obj=("ref", "Channel"),
@@ -53,4 +53,31 @@ shape("_DMMSchedule", bases=("_ChannelSchedule",), detuning_map=("ref", "Detunin
 shape("_Schedule", max_duration=("opt", "int"),
       _d=(("map", "str", ("ref", "_ChannelSchedule")), M))   # the dict content of the subclass
 
+declare_heap_fields()
+
+# --- sequence/_basis_ref.py (declared after the first batch; heap fields re-declared below) ---
+shape("_PhaseTracker", _times=(("list", "int"), M), _phases=(("list", "real"), M))
+shape("_QubitRef", phase=(("ref", "_PhaseTracker"), M), last_used=("int", M))
+declare_heap_fields()
+
+# --- sequence/sequence.py -----------------------------------------------------
+shape("_Call", name="str", args="opaque", kwargs="opaque")
+shape("Variable")
+shape("VariableItem")
+shape("ParamObj")
+shape("BaseDevice", max_sequence_duration=("opt", "int"), reusable_channels="bool")
+shape("BaseRegister")
+shape("MappableRegister")
+shape("_BasisMap", _d=(("map", "qid", ("ref", "_QubitRef")), M))      # dict[QubitId, _QubitRef]
+shape("_DeclMap")                                                     # the dict returned by Sequence.declared_channels (abstract)
+shape("Sequence",
+      _schedule=("ref", "_Schedule"),
+      _basis_ref=(("map", "str", ("ref", "_BasisMap")), M),
+      _device=("ref", "BaseDevice"), _register=(("ref", "BaseRegister"), M),
+      _building=("bool", M), _in_xy=("bool", M), _in_ising_value=("bool", M), _empty_sequence=("bool", M),
+      _slm_mask_dmm=(("opt", "str"), M), _slm_mask_targets=("qset", M), _qids=("qset", M),
+      _calls=(("list", ("ref", "_Call")), M), _to_build_calls=(("list", ("ref", "_Call")), M),
+      _param_measurement=("str", M), _measurement=("str", M))
+SHAPES["Sequence"].fields["$has__measurement"] = ("bool", True)
+SHAPES["_Call"].ctor_fields = ["name", "args", "kwargs"]
 declare_heap_fields()
